@@ -30,6 +30,34 @@ CLAIMED = {
     'C20': ('§4 C20', 'all digraphs on 3 nodes x all requested subsets x all iteration orders of every hash container (thorough: 4 nodes, out-degree<=2): '
             'result checked against graph ground truth; a counterexample is a concrete graph + order, replayed on the native build'),
 }
+CLAIMED.update({
+    'C08': ('§4 C08', 'differential run histories on both run paths, executed symbolically over a modelled file system: generate P, apply one edit from each output-affecting '
+            'class (30 source edits, 6 configuration edits, 2 standalone-file edits, 4 lost files; new names / rename strings / event names symbolic), run non-forced, compare the '
+            'output directory with a fresh generation of the edited project; pairs and edit-revert-edit triples in the thorough tier; the cache hash is an injective '
+            'uninterpreted function, so hash equality is decided as equality of the symbolic hash inputs'),
+    'C10': ('§4 C10', 'type skeletons with symbolic leaf names at struct-field, parameter and event-payload sites in Zod mode; the emitted schema expression is read into the '
+            'JSON-shape domain and compared with the serde denotation and with the TypeScript type emitted for the same site'),
+    'C11': ('§4 C11', 'validator attribute token streams with symbolic numbers (sign, digits, underscores, suffixes, decimals) and symbolic message strings (quotes, escapes, '
+            'delimiters, keywords, non-ASCII) run through the parser and the Zod templates; emitted constraint calls are read back and compared with the attribute'),
+    'C13': ('§4 C13', 'a reference run (insertion order) against runs under every iteration order of the unordered containers in scope (AstCache, struct discovery, '
+            'dependency graph, collectors) on multi-file projects; every generated file must be byte-identical apart from the timestamp'),
+    'C14': ('§4 C14', 'run; run histories on both run paths with symbolic struct/command names, where the second run flips the iteration order of every unordered container and '
+            'explores all orders inside the cache hash; the second run\'s effect log must be empty; --force x configured force x cache state (absent, matching, mismatching, '
+            'corrupt) matrix decides regeneration'),
+    'C15': ('§4 C15', 'the private string kernels (case conversion, identifier sanitising, type-string splitting, validator number/message parsing, event-name conversion) and '
+            'the whole pipeline run on symbolic strings including multi-byte characters; any reachable RustPanic (slice on a non-boundary, unwrap, index) is a counterexample'),
+    'C16': ('§4 C16', 'CLI generate, CLI init and the build script run symbolically over a modelled file system whose output directory holds a foreign entry with a symbolic '
+            'name (file or directory); every logged effect must be mkdir towards the output directory, a write/remove of a reserved generated name inside it, or (init) the '
+            'configuration file; the clean-up unit is additionally driven directly with names up to 13 (18) characters; violations are replayed under strace'),
+    'C17': ('§4 C17', 'fault histories on both run paths: for each file of the write sequence (and for an unusable output path) an obstacle is placed so that exactly that write '
+            'fails, in a first run and in the run after an output-changing edit; the run must fail, must not write the cache record, the record must be the last write of '
+            'any run, and after removing the obstacle a non-forced run must reach the state of a fresh generation'),
+    'C18': ('§4 C18', 'commands whose parameters/returns use type-mapped and built-in names under every constructor context, symbolic mapped names; the generated text is compared '
+            'relationally with the run in which the mapped name is replaced by its target primitive'),
+    'C19': ('§4 C19', 'save_to_tauri_config/from_tauri_config over symbolic JSON documents (symbolic keys long enough to be "plugins"/"typegen", symbolic strings and integers, nested '
+            'values) and symbolic settings: every key path outside plugins.typegen keeps its value and the settings read back; run_generate/build script over all flag subsets x '
+            'file settings x defaults with symbolic unsupported validation libraries: output location, scanned project, mode, verbosity and rejection-before-write; run_init likewise'),
+})
 NA = {}
 checks = []
 for pid, (ref, text) in sorted(CLAIMED.items()):
@@ -51,8 +79,9 @@ for p in props:
 m = {
     'version': 1,
     'setup_cmd': './setup.sh',
-    'hooks': {'guard': 'tauri_typegen_verif', 'enable': "RUSTFLAGS='--cfg tauri_typegen_verif' (set by setup.sh and by every check when it rebuilds native/)",
-              'baseline_off_cmd': 'cd /repo && cargo test --workspace --no-fail-fast --offline', 'source_commits': [], 'add_only': True},
+    'hooks': {'guard': 'cargo feature `verif-hooks` of the tauri-typegen crate (off by default)',
+              'enable': "native/Cargo.toml depends on /repo with features = [\"verif-hooks\"]; setup.sh and every check rebuild native/ (and the plain CLI binary, hooks off) from /repo's working tree",
+              'baseline_off_cmd': 'cd /repo && cargo test --workspace --no-fail-fast --offline', 'source_commits': ['093fc51'], 'add_only': True},
     'engines': [{'name': 'rsx', 'path': 'rsx/', 'serves_properties': sorted(CLAIMED), 'kind_free_text': 'KLEE-style symbolic executor for the Rust subset of the repository (python + z3), front end tools/astdump (syn), native replay native/'}],
     'checks': checks,
     'not_applicable': na,
